@@ -439,8 +439,21 @@ func (e *varintEngine) execEncodeVarint(L int) (string, error) {
 	steps := 0
 	var exec func(list []ast.Stmt) error
 	classifyByte := func(x ast.Expr) (string, int, error) {
-		// uint8(v&0x7f | 0x80)  or uint8(v)
-		call, ok := ast.Unparen(x).(*ast.CallExpr)
+		// uint8(v&0x7f | 0x80), uint8(v) | 0x80 (bit 7 is forced either way), or uint8(v)
+		x = ast.Unparen(x)
+		if b, ok := x.(*ast.BinaryExpr); ok && b.Op == token.OR && isConstInt(info, b.Y, 0x80) {
+			if call, ok := ast.Unparen(b.X).(*ast.CallExpr); ok && len(call.Args) == 1 && isTypeConv(info, call, types.Uint8) {
+				a := ast.Unparen(call.Args[0])
+				if and, ok := a.(*ast.BinaryExpr); ok && and.Op == token.AND && isConstInt(info, and.Y, 0x7f) {
+					a = ast.Unparen(and.X)
+				}
+				if id, ok := a.(*ast.Ident); ok && id.Name == v {
+					return "cont", env[v].shift, nil
+				}
+			}
+			return "", 0, und("stored byte expression is not a continuation byte of v")
+		}
+		call, ok := x.(*ast.CallExpr)
 		if !ok || len(call.Args) != 1 || !(isTypeConv(info, call, types.Uint8)) {
 			return "", 0, und("stored byte is not a uint8 conversion")
 		}
@@ -461,6 +474,25 @@ func (e *varintEngine) execEncodeVarint(L int) (string, error) {
 		b, ok := ast.Unparen(x).(*ast.BinaryExpr)
 		if !ok {
 			return false, und("loop condition form")
+		}
+		// a comparison of two exact integers (loop counters, offsets)
+		if l, err := e.evalExpr(b.X, env); err == nil && l.kind == kInt {
+			if r, err := e.evalExpr(b.Y, env); err == nil && r.kind == kInt {
+				switch b.Op {
+				case token.LSS:
+					return l.n < r.n, nil
+				case token.LEQ:
+					return l.n <= r.n, nil
+				case token.GTR:
+					return l.n > r.n, nil
+				case token.GEQ:
+					return l.n >= r.n, nil
+				case token.NEQ:
+					return l.n != r.n, nil
+				case token.EQL:
+					return l.n == r.n, nil
+				}
+			}
 		}
 		id, ok := ast.Unparen(b.X).(*ast.Ident)
 		if !ok || id.Name != v {
@@ -570,8 +602,13 @@ func (e *varintEngine) execEncodeVarint(L int) (string, error) {
 				}
 				env[id.Name] = aval{kind: kInt, n: env[id.Name].n + d}
 			case *ast.ForStmt:
-				if st.Init != nil || st.Post != nil || st.Cond == nil {
+				if st.Cond == nil {
 					return und("for-loop form")
+				}
+				if st.Init != nil {
+					if err := exec([]ast.Stmt{st.Init}); err != nil {
+						return err
+					}
 				}
 				for {
 					ok, err := evalCond(st.Cond)
@@ -583,6 +620,14 @@ func (e *varintEngine) execEncodeVarint(L int) (string, error) {
 					}
 					if err := exec(st.Body.List); err != nil {
 						return err
+					}
+					if ret != nil {
+						return nil
+					}
+					if st.Post != nil {
+						if err := exec([]ast.Stmt{st.Post}); err != nil {
+							return err
+						}
 					}
 					steps++
 					if steps > 400 {
